@@ -64,6 +64,9 @@ def cases(tier, seed):
         cs.append({'kind': 'ssh1', 'cmask': cm, 'amask': am})
     for i in range(3 if tier == 'quick' else 12):
         cs.append({'kind': 'ssh199', 'seed': rng.randrange(1 << 30), 'clean': i % 2 == 0})
+    # the same servers audited with a protocol option (-2: SSH-2 only; -1 -2 spelled out; -4): what the banner announces is still a finding
+    for i, opts in enumerate([['-2'], ['-1', '-2'], ['-2', '-4']] if tier == 'quick' else [['-2'], ['-1', '-2'], ['-2', '-4'], ['-2'], ['--ssh2'], ['-1']]):
+        cs.append({'kind': 'ssh199', 'seed': rng.randrange(1 << 30), 'clean': i % 2 == 0, 'opts': opts})
     # two banner findings of different levels at once (SSH-1.99: failure; non-printable character: warning), with failure-free algorithms: the status follows the worse one
     for i in range(2 if tier == 'quick' else 8):
         cs.append({'kind': 'ssh199', 'seed': rng.randrange(1 << 30), 'clean': i % 2 == 0, 'np': True})
@@ -122,11 +125,11 @@ def want_status(levels):
     return 3 if 'fail' in levels else 2 if 'warn' in levels else 0
 
 
-def check_optsets(script, viol, counters, client=False, tag=''):
+def check_optsets(script, viol, counters, client=False, tag='', pre=()):
     """Run all option sets against equal peers; compare each status with the findings of the colour rendering and of the run itself."""
     runs = {}
     for name, args in OPTSETS:
-        r, p = audit.audit_server(script, args)
+        r, p = audit.audit_server(script, list(pre) + args)
         runs[name] = r
     rc = runs['color']
     if rc.status not in (0, 2, 3):
@@ -305,7 +308,9 @@ def run_ssh199(c):
     viol, counters = [], {}
     if c.get('np'):
         counters['banners_with_two_findings'] = 1
-    check_optsets(script, viol, counters, tag=':ssh1.99' + ('+nonprintable' if c.get('np') else ''))
+    if c.get('opts'):
+        counters['ssh199_under_protocol_options'] = 1
+    check_optsets(script, viol, counters, tag=':ssh1.99' + ('+nonprintable' if c.get('np') else '') + (''.join(c.get('opts', []))), pre=c.get('opts', ()))
     return viol, counters
 
 
